@@ -504,6 +504,86 @@ fn syncing_off_at_pauses(sr: &ShapeRun, m: usize, out: &mut Out) {
     }
 }
 
+/// A round whose budget is used up before a single input or output can be applied (budget 0)
+/// at every pause position: the block is still being ingested, so the round neither fetches
+/// nor processes anything and leaves the state as it was; ingestion then completes.
+fn zero_budget_at_pauses(sr: &ShapeRun, m: usize, out: &mut Out) {
+    for k in 1..m {
+        let mut w = setup(sr.shape);
+        let reply_block = offer(&w);
+        let hist = |stage: &str| json!({"shape": sr.shape.name, "budgets": vec![1u64; k], "then": "two rounds with budget 0", "stage": stage});
+        let mut ok = true;
+        for _ in 0..k {
+            if !work_pending(&w) {
+                break;
+            }
+            if w.heartbeat_with(Some(complete_reply(vec![reply_block.clone()], vec![])), Some(1)).is_err() {
+                ok = false;
+                break;
+            }
+        }
+        if !ok || !w.is_ingesting() {
+            continue;
+        }
+        let pos0 = position(&w);
+        let fp0 = full_fingerprint_paused();
+        let tree0 = w.tree_hashes();
+        for round in 0..2 {
+            let _ = rt::take_successors_requests();
+            out.transitions += 1;
+            if let Err(p) = w.heartbeat_with(Some(complete_reply(vec![reply_block.clone()], vec![])), Some(0)) {
+                out.set_history(hist("zero-budget round"));
+                out.violation("heartbeat-trap-in-a-round-without-progress", None, json!({"panic": p, "round": round}));
+                ok = false;
+                break;
+            }
+            let fetched = rt::take_successors_requests().len();
+            let stored = with_state(|s| s.syncing_state.response_to_process.is_some());
+            if fetched > 0 || stored || w.tree_hashes() != tree0 {
+                out.set_history(hist("zero-budget round"));
+                out.violation(
+                    "fetched-or-processed-during-ingestion",
+                    None,
+                    json!({"round": round, "requests_sent": fetched, "response_stored": stored, "tree_changed": w.tree_hashes() != tree0}),
+                );
+                ok = false;
+                break;
+            }
+            if !w.is_ingesting() || position(&w) != pos0 || full_fingerprint_paused() != fp0 {
+                // progress with budget 0 is possible only if the harness's budget does not mean
+                // what it should
+                out.set_history(hist("zero-budget round"));
+                out.violation("machinery:progress-with-budget-zero", None, json!({"round": round}));
+                ok = false;
+                break;
+            }
+            out.count("rounds_without_progress_at_a_pause");
+        }
+        if !ok {
+            continue;
+        }
+        let mut rounds = 0;
+        while work_pending(&w) && rounds < 8 {
+            if w.heartbeat_with(Some(complete_reply(vec![reply_block.clone()], vec![])), None).is_err() {
+                ok = false;
+                break;
+            }
+            rounds += 1;
+        }
+        if !ok || work_pending(&w) {
+            out.set_history(hist("resuming"));
+            out.violation("not-finished-after-rounds-without-progress", None, json!({"rounds": rounds}));
+            continue;
+        }
+        let fin = observe::observe(&w, &sr.opts);
+        let d = observe::diff(&sr.unsliced_obs, &fin);
+        if !d.is_empty() {
+            out.set_history(hist("after completion"));
+            out.violation("final-answers-differ-from-unsliced-run-after-rounds-without-progress", None, json!({"differing_probes": d.iter().take(8).collect::<Vec<_>>()}));
+        }
+    }
+}
+
 /// Fingerprint of a paused state with the per-round statistics masked.
 fn full_fingerprint_paused() -> u128 {
     full_fingerprint()
@@ -574,6 +654,7 @@ fn run_shape(shape: &Shape, max_m: usize, rep_out: &mut Out) -> Value {
     if m <= max_m {
         upgrade_at_pauses(&sr, m, &mut out);
         syncing_off_at_pauses(&sr, m, &mut out);
+        zero_budget_at_pauses(&sr, m, &mut out);
     }
     out.add("budget_sequences", n);
     out.add("distinct_pause_positions", sr.pos_fp.len() as u64);
@@ -611,12 +692,13 @@ pub fn run(tier: &str) -> i32 {
         rep.out.merge(o);
         rep.parts.push(v);
     }
-    rep.rule = "for each block shape, all compositions of the m slicing call sites into per-round budgets >= 1 (2^(m-1) schedules), each driven through the real heartbeat() with a source that always offers a further valid block; at the first visit of every pause position the complete probe set is compared with the answers before ingestion began, later visits must reach the identical state; the final state must equal the unsliced run; plus an upgrade at every pause position (answers unchanged by it, ingestion completes, final answers equal the unsliced run) and set_config(syncing = disabled) at every pause position (ingestion still completes without fetching, same final answers)".into();
+    rep.rule = "for each block shape, all compositions of the m slicing call sites into per-round budgets >= 1 (2^(m-1) schedules), each driven through the real heartbeat() with a source that always offers a further valid block; at the first visit of every pause position the complete probe set is compared with the answers before ingestion began, later visits must reach the identical state; the final state must equal the unsliced run; plus an upgrade at every pause position (answers unchanged by it, ingestion completes, final answers equal the unsliced run) and set_config(syncing = disabled) at every pause position (ingestion still completes without fetching, same final answers), and two rounds with budget 0 at every pause position (no fetch, no processing, state unchanged)".into();
     rep.bounds = json!({"tier": tier, "max_call_sites": max_m, "shapes": shapes.len()});
     rep.assume("budgets are expressed in slicing call sites (one per input and per output), the only points where the code can pause");
     rep.assume("block_ingestion_stats and histograms are masked in fingerprints: they legitimately record the number of rounds");
     rep.floor("upgrades_at_a_pause", 30);
     rep.floor("syncing_switched_off_at_a_pause", 30);
+    rep.floor("rounds_without_progress_at_a_pause", 60);
     rep.floor("pauses_inside_input_loop", 10);
     rep.floor("pauses_between_inputs_and_outputs", 10);
     rep.floor("pauses_inside_output_loop", 100);
